@@ -464,29 +464,33 @@ impl<'a> Searcher<'a> {
                         })
                         .collect::<Vec<usize>>();
 
+                    // a column is compared numerically only when all of its values are numbers:
+                    // deciding per pair of cells is not a total order ("2" < "10" < "1x" < "2")
+                    let numeric_columns = sorting_indices
+                        .iter()
+                        .map(|i| {
+                            results
+                                .iter()
+                                .all(|row| row.get(*i).is_some_and(|cell| cell.1.parse::<i64>().is_ok()))
+                        })
+                        .collect::<Vec<bool>>();
+
                     results.sort_by(|a, b| {
                         sorting_indices
                             .iter()
                             .enumerate()
                             .map(|(idx, i)| {
-                                if let Some(a) = a.get(*i) {
-                                    if let Ok(a) = a.1.parse::<i64>() {
-                                        if let Some(b) = b.get(*i) {
-                                            if let Ok(b) = b.1.parse::<i64>() {
-                                                return if directions[idx] { 
-                                                    a.cmp(&b) 
-                                                } else { 
-                                                    b.cmp(&a) 
-                                                };
-                                            }
-                                        }
-                                    }
+                                let (a, b) = (&a.get(*i).unwrap().1, &b.get(*i).unwrap().1);
+                                let ordering = if numeric_columns[idx] {
+                                    a.parse::<i64>().unwrap_or(0).cmp(&b.parse::<i64>().unwrap_or(0))
+                                } else {
+                                    a.cmp(b)
+                                };
+                                if directions[idx] {
+                                    ordering
+                                } else {
+                                    ordering.reverse()
                                 }
-                                if directions[idx] { 
-                                    a.get(*i).unwrap().1.cmp(&b.get(*i).unwrap().1) 
-                                } else { 
-                                    b.get(*i).unwrap().1.cmp(&a.get(*i).unwrap().1) 
-                                } 
                             })
                             .find(|r| *r != std::cmp::Ordering::Equal)
                             .unwrap_or(std::cmp::Ordering::Equal)
